@@ -238,7 +238,12 @@ def _sanitize(world, cfg, node=None):
         if kind == "schemalist":
             for item in value or []:
                 if isinstance(item, cc.Config):
-                    _sanitize(world, item, child)
+                    try:
+                        _sanitize(world, item, child)
+                    except AttributeError:
+                        # a configuration of ANOTHER schema sits in this list (any Config object is accepted for such a
+                        # slot): caller-made, outside the quantifier
+                        UNSANITIZED.append(key)
             continue
         bad = False
         if kind == "secure":
